@@ -646,10 +646,20 @@ def generate(template_path, repo_root, unit_name, canary=False):
     return g
 
 
+SEM_PROPS = ['C01', 'C05', 'C06', 'C08', 'C16', 'T06', 'T07', 'T08']
+
+
 def clause_props(t):
     """`// #C02` or `// #C02,C08` at the end of a contract line: the clause serves only those properties"""
-    m = re.search(r'//\s*#(C\d+(?:\s*,\s*C\d+)*)\s*$', t)
-    return [x.strip() for x in m.group(1).split(',')] if m else None
+    m = re.search(r'//\s*#((?:C\d+|SEM)(?:\s*,\s*(?:C\d+|SEM))*)\s*$', t)
+    if not m:
+        return None
+    res = []
+    for x in m.group(1).split(','):
+        x = x.strip()
+        # #SEM marks a semantic-correctness clause: it serves every property except the canonical-form one (C02)
+        res.extend(SEM_PROPS if x == 'SEM' else [x])
+    return res
 
 
 def add_canary(spec_lines):
